@@ -89,6 +89,8 @@ theorem hint_unambiguous_all (e e' : TExpr) (h : wfB e = true) (h' : wfB e' = tr
 example : wfB (.app (lit "Dict") [.atom (lit "str"), .bor [.app (lit "List") [.atom (lit "int")], eNone]]) = true ∧
     wfU (.app sOptional [.app sUnion [.atom (lit "int"), .atom (lit "str")]]) = true := by decide
 
+/-- the expressions of the `Union[…]` spelling (what `typeHint_eq_print_typing` yields) are well-formed hint
+expressions in the sense of `hint_unambiguous_all`: one notion of reading for all eight spellings. -/
 theorem union_spelling_is_wellformed (e : TExpr) (h : wfU e = true) : wfB e = true := wfB_of_wfU e h
 
 /-! ### Balanced brackets -/
@@ -223,6 +225,9 @@ theorem none_once_operator (o : Opts) (ho : o.unionOp = true) (t : DT) (hw : wfT
   have hf := opFree_hintE o ho t
   exact ⟨h1, hf, h3, (rootOK_of_wfB _ h3 hf).1⟩
 
+/-- `no_double_optional`, `|` spelling, EVERY tree (also with odd names and literals): the structural
+rendering under `use_union_operator` never contains an `Optional[…]` or `Union[…]` subscription, so a
+doubly wrapped optional cannot be written in that spelling. -/
 theorem no_optional_wrapper_operator (o : Opts) (ho : o.unionOp = true) (t : DT) : opFree (hintE o t).1 = true :=
   opFree_hintE o ho t
 
@@ -298,6 +303,15 @@ theorem spelling_invariant_operator_partial (o : Opts) (ho : o.unionOp = false) 
   obtain ⟨h1, h2, h3, h4⟩ := rel_hint o ho t hw hr
   exact ⟨(typeHint_eq_print_typing o ho t hw).1, (typeHint_eq_print_operator (withOp o) rfl t hw).1,
     wfB_of_wfU _ h2, h4, h1.denote.symm⟩
+
+/-- non-vacuity of the operator half where the eight-spelling theorem does not apply: a type NAMED `List`
+(not `freeTree`) in an optional union under a dict -/
+example :
+    let t : DT := .mk { isDict := true } none [.mk { isOptional := true } none [leaf "List", leaf "int" true]]
+    wfTree t = true ∧ freeTree t = false ∧ opRegion typingO t = true ∧
+    (typeHint typingO t).1 = lit "Dict[str, Optional[Union[List, Optional[int]]]]" ∧
+    (typeHint (withOp typingO) t).1 = lit "Dict[str, List | int | None]" := by
+  decide
 
 /-- PARTIAL, ALL EIGHT SPELLINGS — the headline of C13: for every tree whose names are plain
 (`wfTree`), are not themselves container names (`freeTree`) and that lies inside `opRegionAll`
